@@ -18,29 +18,54 @@
   `C01_observer_changes_nothing`: a handler that observes (answers the value it is shown) makes such a
   binding store exactly what Python would have stored.
 
-  Full statement (`Transparent`) = refinement + erasure of the observing handler over whole runs.  The
-  erasure over whole runs is not proved here (`…_partial`); it is what the differential oracle of the check
-  explores (untouched function vs tooled / tooled in place / probed on subsets of its variables).
+  `C01_transparent` — the full statement on the model: for every function of the core fragment WITHOUT bare
+  declarations (the documented exception), every capture set, every host that never hands ptera's marker to
+  the program (`HostGood`: closure of a predicate `Good` on values under all host operations), every handler
+  that only observes, every input / generator script / loop bound: the REWRITTEN function ends the same way
+  as the UNTOUCHED one under plain Python semantics (`hk = none`), with the same world (side effects in
+  order) and the same values yielded.  It is `instrument_refines` composed with `erasure`
+  (Proofs/Erase*.lean: the reference semantics with an observing handler is plain Python — globals read at
+  entry equal globals read at use because globals do not change during the call, the re-binding of a name to
+  itself is a no-op because Python's own stores leave it bound, meta events only touch the handler state).
 -/
 import PteraModel.Proofs.PyLiteSpec
+import PteraModel.Proofs.EraseFun
+import PteraModel.Proofs.PyLiteGood
 namespace Ptera.Props.C01
 open Ptera.Py Ptera.Sem
 
 variable {W HS : Type}
 
-/-- a handler that only observes: it answers the value it is shown -/
-def Observer (host : Host W HS) : Prop := ∀ i hs, (host.hnd i hs).1 = .ok i.value
-
 /-- the full statement of the property on the model: under an observing handler the rewritten function
     behaves as the untouched one (plain Python: `hk = none`) -/
-def Transparent (host : Host W HS) (cfg : Cfg) (f : FunDef) : Prop :=
-  Observer host → ∀ fuel (st0 : St W HS), (∀ x ∈ (collect f).external, st0.loc x = none) →
+def Transparent (host : Host W HS) (cfg : Cfg) (f : FunDef) (fuel : Nat) (st0 : St W HS) : Prop :=
     (runInstr (ctxOf host cfg f fuel).envI fuel (instrument cfg f) st0).1
       = (runRef { host := host, sc := scopeOf f, hk := none } fuel f st0).1
     ∧ (runInstr (ctxOf host cfg f fuel).envI fuel (instrument cfg f) st0).2.w
       = (runRef { host := host, sc := scopeOf f, hk := none } fuel f st0).2.w
     ∧ (runInstr (ctxOf host cfg f fuel).envI fuel (instrument cfg f) st0).2.out
       = (runRef { host := host, sc := scopeOf f, hk := none } fuel f st0).2.out
+    ∧ (runInstr (ctxOf host cfg f fuel).envI fuel (instrument cfg f) st0).2.inp
+      = (runRef { host := host, sc := scopeOf f, hk := none } fuel f st0).2.inp
+
+/-- **Transparency.**  Instrumentation with an observing handler changes nothing the caller can see. -/
+theorem C01_transparent (host : Host W HS) (hh : HostSpec host) (Good : Val → Prop) (WInv : W → Prop)
+    (hg : HostGood host Good WInv) (hobs : Observer host) (pne : PneSpec host)
+    (cfg : Cfg) (f : FunDef) (fuel : Nat) (hf : coreF f = true) (hnd : noDeclB (bodyWithReturn f) = true)
+    (st0 : St W HS)
+    (hext : ∀ x ∈ (collect f).external, st0.loc x = none)
+    (hpar : ∀ p ∈ f.params, st0.loc p.name ≠ none)
+    (hgood : ∀ x v, st0.loc x = some v → Good v) (hinp : ∀ cmd ∈ st0.inp, GoodCmd Good cmd)
+    (hcur : ∀ e ∈ st0.cur, Good e) (hw : WInv st0.w) :
+    Transparent host cfg f fuel st0 := by
+  have h1 := instrument_refines host cfg f fuel hf (libSpec_of_host host hh cfg f fuel hf) st0 hext
+  have h2 := erasure host cfg f fuel Good WInv hg hobs pne hf hnd st0 hext hpar hgood hinp hcur hw
+  obtain ⟨e1, o1⟩ := h1
+  obtain ⟨e2, _, r2⟩ := h2
+  have eR : (ectxOf host cfg f fuel Good WInv).envR = (ctxOf host cfg f fuel).envR := rfl
+  have eP : (ectxOf host cfg f fuel Good WInv).envP = { host := host, sc := scopeOf f, hk := none } := rfl
+  rw [eR, eP] at e2 r2
+  exact ⟨e1.trans e2, o1.w.trans r2.w, o1.out.trans r2.out, o1.inp.trans r2.inp⟩
 
 /-- the rewritten function refines the reference semantics of the original: result, world, events,
     generator traffic -/
@@ -74,6 +99,48 @@ theorem C01_uncaptured_untouched (env : Env W HS) (cfg : Cfg) (henv : env.hk = s
     hook env name ann v = pure v := by
   unfold hook
   simp [henv, hoff]
+
+/-- the theorem instantiated with the host of the generated programs and a recording handler: for every
+    function of the fragment, capture set, integer arguments, condition script, driver script and loop bound,
+    the rewritten function does what the untouched one does (none of the hypotheses about hosts is left) -/
+theorem C01_transparent_generated (cfg : Cfg) (f : FunDef) (fuel : Nat) (hf : coreF f = true)
+    (hnd : noDeclB (bodyWithReturn f) = true) (args : List Int) (hlen : f.params.length ≤ args.length)
+    (script : List Bool) (inp : List GenCmd) (hinp : ∀ cmd ∈ inp, GoodCmd PyLite.Good cmd) :
+    Transparent PyLite.hostObs cfg f fuel
+      { loc := initLoc (f.params.map (·.name)) (args.map Val.int), w := { script := script }, hs := {},
+        inp := inp, out := [], cur := [] } := by
+  have hf' := hf
+  simp only [coreF, Bool.and_eq_true, List.all_eq_true] at hf'
+  obtain ⟨⟨⟨⟨⟨_, _⟩, _⟩, _⟩, _⟩, hparam⟩ := hf'
+  refine C01_transparent PyLite.hostObs PyLite.hostSpecObs PyLite.Good PyLite.WInv PyLite.hostGood PyLite.observer
+    PyLite.pne cfg f fuel hf hnd _ ?_ ?_ ?_ hinp (by intro e he; simp at he) ⟨rfl, rfl, by intro p hp; simp at hp⟩
+  · intro x hx
+    apply initLoc_none
+    intro hm
+    simp only [List.mem_map] at hm
+    obtain ⟨p, hp, rfl⟩ := hm
+    have ha := hparam p hp
+    simp only [Collected.external, List.mem_filter, Bool.and_eq_true, Bool.not_eq_true'] at hx
+    rw [ha] at hx
+    exact absurd hx.2.1 (by decide)
+  · intro p hp
+    obtain ⟨v, _, hv⟩ := initLoc_some p.name (f.params.map (·.name)) (args.map Val.int)
+      (List.mem_map.2 ⟨p, hp, rfl⟩) (by simpa using hlen)
+    simp only
+    rw [hv]; simp
+  · intro x v hv
+    by_cases hm : x ∈ f.params.map (·.name)
+    · obtain ⟨u, hu, hi⟩ := initLoc_some x (f.params.map (·.name)) (args.map Val.int) hm (by simpa using hlen)
+      simp only at hv
+      rw [hi] at hv
+      injection hv with hv
+      subst hv
+      simp only [List.mem_map] at hu
+      obtain ⟨n, _, rfl⟩ := hu
+      rfl
+    · simp only at hv
+      rw [initLoc_none x _ _ hm] at hv
+      simp at hv
 
 /-- the hypotheses are satisfiable: the host of the generated programs is one -/
 theorem C01_host_exists : HostSpec PyLite.host := PyLite.hostSpec
